@@ -159,6 +159,7 @@ func (h *TwoPartyHandler) advance() {
 			if err != nil {
 				panic(fmt.Errorf("failed to marshal round message: %w", err))
 			}
+			data = simCanon(data)
 			msg := &Message{
 				SSID:                  newRound.SSID(),
 				From:                  newRound.SelfID(),
